@@ -223,6 +223,70 @@ impl LiveSim {
     }
 }
 
+impl LiveSim {
+    /// `LiveOverlay::finish` with caller-supplied page images (one page of bytes each) and value
+    /// changes that may be overflow values (`seek::Val::Overflow`: only the value hash matters to
+    /// the readers of an overlay).
+    pub fn finish_full(
+        &self,
+        prev_root: [u8; 32],
+        root: [u8; 32],
+        pages: Vec<(PageId, Vec<u8>)>,
+        values: Vec<(KeyPath, Option<seek::Val>)>,
+    ) -> Overlay {
+        let page_changes = pages
+            .into_iter()
+            .map(|(page_id, bytes)| {
+                let mut fat = self.page_pool.alloc_fat_page();
+                fat[..].copy_from_slice(&bytes);
+                let dirty = DirtyPage {
+                    page: PageMut::pristine_with_data(fat).freeze(),
+                    diff: PageDiff::default(),
+                    bucket: BucketInfo::FreshOrDependent(SharedMaybeBucketIndex::new(None)),
+                };
+                (page_id, dirty)
+            })
+            .collect();
+        let value_changes = values
+            .into_iter()
+            .map(|(k, c)| {
+                (
+                    k,
+                    match c {
+                        None => ValueChange::Delete,
+                        Some(seek::Val::Inline(v)) => ValueChange::Insert(v),
+                        Some(seek::Val::Overflow(_, hash, _)) => {
+                            ValueChange::InsertOverflow(Vec::new(), hash)
+                        }
+                    },
+                )
+            })
+            .collect();
+        self.live
+            .clone()
+            .finish(prev_root, root, page_changes, value_changes, None)
+    }
+
+    /// The real `SeekRequest` state machine over this live overlay (see `seek::SeekSim`).
+    pub fn seek_sim(
+        &self,
+        root: [u8; 32],
+        primary: Vec<(KeyPath, Option<seek::Val>)>,
+        secondary: Option<Vec<(KeyPath, Option<seek::Val>)>>,
+        branches: Vec<Vec<seek::LeafSpec>>,
+        record_siblings: bool,
+    ) -> std::io::Result<seek::SeekSim> {
+        seek::SeekSim::new(
+            root,
+            self.live.clone(),
+            primary,
+            secondary,
+            branches,
+            record_siblings,
+        )
+    }
+}
+
 /// `(seqn, index.values ascending by key, index.values_by_seqn front to back, ancestor_data.len())`
 pub fn overlay_index(o: &Overlay) -> (u64, Vec<(KeyPath, u64)>, Vec<(u64, KeyPath)>, usize) {
     o.verif_index()
@@ -882,4 +946,15 @@ pub mod branch_updater {
         crate::beatree::ops::branch_updater_verif::consts::BULK_THRESHOLD;
     pub const BRANCH_BULK_SPLIT_TARGET: usize =
         crate::beatree::ops::branch_updater_verif::consts::BULK_TARGET;
+}
+
+// H18 — The seek state machine (`merkle/seek.rs`): the real `SeekRequest` (`new`, `next_query`, `continue_seek`,
+// `continue_leaf_fetch`, `continue_leaves_fetch` with the real `reconstruct_pages`, `range_bounds`) over a real
+// `PageSet` / `PageCache` / `LiveOverlay` and hand-built b-tree leaves, driven step by step: the caller answers the
+// page and leaf requests itself, in any order, for any number of interleaved keys.
+pub mod seek {
+    pub use crate::beatree::iterator::verif_tree::{LeafSpec, Val};
+    pub use crate::merkle::seek_verif::{
+        range_bounds, Awaiting, RequestView, SeekSim, Source, StateView, Step,
+    };
 }
